@@ -9,7 +9,7 @@ use clvm_rs::allocator::Allocator;
 use crate::classic::clvm::__type_compatibility__::{bi_one, bi_zero};
 use crate::classic::clvm_tools::stages::stage_0::TRunProgram;
 
-use crate::compiler::clvm::{run, truthy};
+use crate::compiler::clvm::{flatten_signed_int, run, truthy};
 use crate::compiler::codegen::{codegen, hoist_assign_form};
 use crate::compiler::compiler::{do_desugar, is_at_capture};
 use crate::compiler::comptypes::{
@@ -552,7 +552,9 @@ fn promote_args_to_bodyform(
 }
 
 fn choose_from_env_by_path(path_: Number, args_program: Rc<BodyForm>) -> Rc<BodyForm> {
-    let mut path = path_;
+    // A path is the unsigned reading of its atom (-1 is 0xff, path 255), as in
+    // the evaluator; halving a negative number never reaches 1.
+    let mut path = flatten_signed_int(path_);
     let mut op_list = Vec::new();
     let two = 2_i32.to_bigint().unwrap();
 
